@@ -586,6 +586,15 @@ error: {:?}", out.replay(), e)),
 				}
 			}
 		}
+		if let (Some(der), true) = (&out.der, self.prop == "C05") {
+			// the alternative-name extension a request asks for is critical exactly when its subject
+			// is empty — the same rule as in a certificate (read off the request alone)
+			if let Some((subject_empty, Some(critical))) = csr_san_criticality(der) {
+				if critical != subject_empty {
+					self.rep.violate("C05:csr-san-critical-iff-subject-empty", "the subjectAltName extension a request asks for is not critical exactly when the subject is empty", format!("{}\nsubject empty: {}, subjectAltName critical: {}", out.replay(), subject_empty, critical));
+				}
+			}
+		}
 		if let Some(der) = &out.der {
 			let key = self.ctx.key(alg);
 			let line = format!("spec-csr {} {} {} {}", p.sexp(), key_sexp(&*key), list(&attrs.iter().map(|a| a.sexp()).collect::<Vec<_>>()), hex(der));
@@ -657,6 +666,69 @@ key (PKCS#8): {}
 			}
 		}
 		self.rep.exhaustive.push("RSA keys of 2048/3072/4096/8192 bits x every RSA algorithm of the build x three loading entry points: certificate, request and CRL generation under catch_unwind".into());
+	}
+
+	/// BMPString code units inside and at both ends of the surrogate block, UniversalString values
+	/// beyond U+10FFFF and inside the block, through the byte-level constructors: whatever is
+	/// accepted goes into a certificate and through the canonicity / schema clauses
+	pub fn string_edge_units(&mut self) {
+		let mut cases: Vec<DnV> = Vec::new();
+		for u in [0xd7ffu16, 0xd800, 0xd801, 0xdbff, 0xdc00, 0xdffe, 0xdfff, 0xe000] {
+			cases.push(DnV::Bmp(vec![(u >> 8) as u8, u as u8]));
+			cases.push(DnV::Bmp(vec![0, 0x41, (u >> 8) as u8, u as u8, 0, 0x42]));
+		}
+		for v in [0xd7ffu32, 0xd800, 0xdfff, 0xe000, 0x10ffff, 0x110000, 0xffffffff] {
+			cases.push(DnV::Universal(v.to_be_bytes().to_vec()));
+		}
+		for v in cases {
+			let mut p = PCert::default_like();
+			if cfg!(feature = "nocrypto") {
+				p.serial = Some(vec![5]);
+				p.kid = Kid::Pre(vec![1; 20]);
+			}
+			p.dn = Dn(vec![(DnT::O, v.clone())]);
+			self.rep.count(if v.real().is_some() { "edge_unit_constructible" } else { "edge_unit_refused" });
+			self.cert(&p, None, "ed25519", false);
+		}
+		self.rep.exhaustive.push("BMPString code units at and inside the surrogate block, UniversalString values at the block, at U+10FFFF and beyond: constructed from bytes, written, checked".into());
+	}
+
+	/// every signature algorithm `SignatureAlgorithm::from_oid` answers for — the public constants
+	/// and whatever else the table holds — used: an RSA / EC / Ed25519 fixture key loaded under it
+	/// signs a certificate, which goes through the clause lists; for RSASSA-PSS the parameters
+	/// follow RFC 4055 (a saltLength equal to the DEFAULT 20 is not written)
+	#[cfg(not(feature = "nocrypto"))]
+	pub fn algorithms_by_identifier(&mut self) {
+		let oids: Vec<Vec<u64>> = vec![
+			vec![1, 2, 840, 113549, 1, 1, 10], vec![1, 2, 840, 113549, 1, 1, 11], vec![1, 2, 840, 113549, 1, 1, 12], vec![1, 2, 840, 113549, 1, 1, 13], vec![1, 2, 840, 113549, 1, 1, 5], vec![1, 2, 840, 113549, 1, 1, 14],
+			vec![1, 2, 840, 10045, 4, 3, 1], vec![1, 2, 840, 10045, 4, 3, 2], vec![1, 2, 840, 10045, 4, 3, 3], vec![1, 2, 840, 10045, 4, 3, 4], vec![1, 3, 101, 112], vec![1, 3, 101, 113],
+		];
+		let docs: Vec<Vec<u8>> = vec![self.ctx.rsa_fixture.clone(), self.ctx.key("ed25519").serialize_der(), self.ctx.key("ecdsaP256").serialize_der(), self.ctx.key("ecdsaP384").serialize_der()];
+		for o in oids {
+			let Ok(alg) = SignatureAlgorithm::from_oid(&o) else { continue };
+			self.rep.count("algorithms_answered_by_identifier");
+			for d in &docs {
+				let Ok(Ok(k)) = std::panic::catch_unwind(std::panic::AssertUnwindSafe(|| KeyPair::from_pkcs8_der_and_sign_algo(&d.as_slice().into(), alg))) else { continue };
+				let mut p = PCert::default_like();
+				p.serial = Some(vec![0x61]);
+				let Ok(Ok(cert)) = std::panic::catch_unwind(std::panic::AssertUnwindSafe(|| p.real().unwrap().self_signed(&k))) else { continue };
+				let der = cert.der().to_vec();
+				self.rep.case(&format!("algorithm by identifier {:?} {}", o, hex(&der)), true);
+				// RSASSA-PSS-params ::= SEQUENCE { ..., saltLength [2] INTEGER DEFAULT 20, ... }
+				let pss = [0x06u8, 0x09, 0x2a, 0x86, 0x48, 0x86, 0xf7, 0x0d, 0x01, 0x01, 0x0a];
+				if der.windows(pss.len()).any(|w| w == pss) && der.windows(5).any(|w| w == [0xa2, 0x03, 0x02, 0x01, 0x14]) {
+					self.rep.violate("C04:default-value-written:rsassa-pss-salt-length", "a component equal to its DEFAULT is encoded (RSASSA-PSS saltLength 20)", format!("algorithm identifier {:?}\ncertificate: {}", o, hex(&der)));
+				}
+				let line = format!("spec-cert {} {} self {}", p.sexp(), key_sexp(&k), hex(&der));
+				let resp = self.drv.ask(&line);
+				for clause in Self::parse_fail(&resp) {
+					if self.mine(&clause) {
+						self.rep.violate(&format!("{}:algorithm-by-identifier", clause), "a certificate signed under an algorithm looked up by identifier violates a specification clause", format!("identifier {:?}\nspec-request: {}\nspec-answer: {}", o, line, resp));
+					}
+				}
+			}
+		}
+		self.rep.exhaustive.push("12 signature algorithm identifiers through SignatureAlgorithm::from_oid; each one answered for is used with the fixture keys it loads".into());
 	}
 
 	/// the command-line tool is the crate's other public entry point: whatever options and paths it
@@ -1798,6 +1870,8 @@ pub fn run(ctx: &mut Ctx, prop: &str) -> Report {
 			s.prefix_sweep();
 			s.kid_sweep();
 			s.uri_shape_sweep();
+			#[cfg(not(feature = "nocrypto"))]
+			crate::props::c18::tool_says_what_it_is_told(&mut s, "C02");
 			s.api_surface();
 			s.ctor_sweep();
 			#[cfg(not(feature = "nocrypto"))]
@@ -1815,6 +1889,9 @@ pub fn run(ctx: &mut Ctx, prop: &str) -> Report {
 			s.crl_enum_sweep();
 			s.large_artefacts();
 			s.malformed_stream(n(60, 2000));
+			s.string_edge_units();
+			#[cfg(not(feature = "nocrypto"))]
+			s.algorithms_by_identifier();
 			s.string_kind_sweep();
 			s.time_edge_sweep();
 			#[cfg(not(feature = "nocrypto"))]
@@ -2174,4 +2251,31 @@ impl<'a> Suite<'a> {
 #[cfg(not(feature = "nocrypto"))]
 fn values_as_parsed(dn: &Dn) -> Vec<(DnT, DnV)> {
 	dn.0.iter().map(|(t, v)| (t.clone(), v.real().map(|r| DnV::of_real(&r)).unwrap_or_else(|| v.clone()))).collect()
+}
+
+/// (the subject of a request is empty, the criticality of the subjectAltName extension its
+/// extension request asks for — None when it asks for none)
+fn csr_san_criticality(der: &[u8]) -> Option<(bool, Option<bool>)> {
+	use crate::der::{children, read_tlv};
+	let (outer, _) = read_tlv(der)?;
+	let info = children(children(outer.content)?.first()?.content)?;
+	let subject_empty = info.get(1)?.content.is_empty();
+	let mut critical = None;
+	if let Some(attrs) = info.get(3) {
+		for a in children(attrs.content)? {
+			let k = children(a.content)?;
+			if k.len() != 2 || k[0].content != [0x2a, 0x86, 0x48, 0x86, 0xf7, 0x0d, 0x01, 0x09, 0x0e] {
+				continue;
+			}
+			for v in children(k[1].content)? {
+				for e in children(v.content)? {
+					let f = children(e.content)?;
+					if f.first()?.content == [0x55, 0x1d, 0x11] {
+						critical = Some(f.len() == 3 && f[1].tag == 0x01 && f[1].content != [0x00]);
+					}
+				}
+			}
+		}
+	}
+	Some((subject_empty, critical))
 }
